@@ -30,6 +30,13 @@ fn build_config(c: &Value) -> BuildConfig {
                 std::fs::create_dir_all(path.parent().unwrap()).unwrap();
                 std::fs::write(path, f[1].as_str().unwrap()).unwrap();
             }
+            for f in jarr(&p, "append") {
+                // deliberately not idempotent: running the preprocessor twice on the same copy shows
+                let f = f.as_array().unwrap();
+                use std::io::Write;
+                let mut file = std::fs::OpenOptions::new().create(true).append(true).open(dir.join(f[0].as_str().unwrap())).unwrap();
+                file.write_all(f[1].as_str().unwrap().as_bytes()).unwrap();
+            }
             for f in jarr(&p, "remove") {
                 let _ = std::fs::remove_file(dir.join(f.as_str().unwrap()));
             }
@@ -103,7 +110,13 @@ fn build_body(ctx: TestContext, nodes: &[Value]) {
             }
             "rebuild" => {
                 assert!(i + 1 == nodes.len(), "rebuild consumes the context and must be the last node");
-                ctx.rebuild(build_config(&n["config"]), |ctx2| build_body(ctx2, jarr(n, "body")));
+                if n.get("reuse_config").and_then(Value::as_bool).unwrap_or(false) {
+                    // the documented idiom: rebuild with the very configuration of the first build
+                    let cfg = ctx.config.clone();
+                    ctx.rebuild(cfg, |ctx2| build_body(ctx2, jarr(n, "body")));
+                } else {
+                    ctx.rebuild(build_config(&n["config"]), |ctx2| build_body(ctx2, jarr(n, "body")));
+                }
                 return;
             }
             x => panic!("unknown op {x}"),
